@@ -37,9 +37,10 @@ type (
 	EIndex struct{ X, I Expr }
 	ESlice struct{ X, Lo, Hi Expr }
 	EQuant struct {
-		Forall bool
-		Vars   []QVar
-		Body   Expr
+		Forall   bool
+		Vars     []QVar
+		Body     Expr
+		Triggers []Expr
 	}
 	EIte  struct{ C, A, B Expr }
 	EStar struct{ X Expr } // *x
@@ -98,7 +99,7 @@ type lexer struct {
 	toks []etoken
 }
 
-var ops = []string{"<==>", "==>", "::", "&&", "||", "==", "!=", "<=", ">=", "<<", ">>", "&^", "+", "-", "*", "/", "%", "<", ">", "!", "(", ")", "[", "]", ",", ".", ":", "?", "&", "|", "^"}
+var ops = []string{"{", "}", "<==>", "==>", "::", "&&", "||", "==", "!=", "<=", ">=", "<<", ">>", "&^", "+", "-", "*", "/", "%", "<", ">", "!", "(", ")", "[", "]", ",", ".", ":", "?", "&", "|", "^"}
 
 func lex(src string) ([]etoken, error) {
 	var out []etoken
@@ -302,12 +303,17 @@ func (ps *eparser) unary() Expr {
 				}
 				names = append(names, n2.text)
 			}
+			prefix := ""
+			if ps.isOp("*") {
+				ps.p++
+				prefix = "*"
+			}
 			ty := ps.next()
 			if ty.kind != "ident" {
 				ps.fail("quantifier type expected")
 			}
 			for _, nm := range names {
-				q.Vars = append(q.Vars, QVar{nm, ty.text})
+				q.Vars = append(q.Vars, QVar{nm, prefix + ty.text})
 			}
 			if ps.isOp(",") {
 				ps.p++
@@ -316,6 +322,16 @@ func (ps *eparser) unary() Expr {
 			break
 		}
 		ps.expect("::")
+		if ps.isOp("{") {
+			ps.p++
+			for !ps.isOp("}") {
+				q.Triggers = append(q.Triggers, ps.expr(0))
+				if ps.isOp(",") {
+					ps.p++
+				}
+			}
+			ps.expect("}")
+		}
 		q.Body = ps.expr(0)
 		return q
 	}
@@ -453,7 +469,11 @@ func substExpr(e Expr, m map[string]Expr) Expr {
 		for _, v := range x.Vars {
 			delete(m2, v.Name)
 		}
-		return &EQuant{x.Forall, x.Vars, substExpr(x.Body, m2)}
+		var ts []Expr
+		for _, t := range x.Triggers {
+			ts = append(ts, substExpr(t, m2))
+		}
+		return &EQuant{x.Forall, x.Vars, substExpr(x.Body, m2), ts}
 	case *EIte:
 		return &EIte{substExpr(x.C, m), substExpr(x.A, m), substExpr(x.B, m)}
 	}
